@@ -1,4 +1,4 @@
-import PysnarkModel.Lemmas.BranchStruct
+import PysnarkModel.Lemmas.BranchTree
 import PysnarkModel.Lemmas.OblRun
 /-!
 # Block branching: the constraints emitted do not depend on the values
@@ -10,10 +10,29 @@ the library layer (`Lemmas/Obl*.lean`).
 -/
 namespace Pysnark
 
-/-- same wire expression, same identity (values free) -/
-def ObjRel (o1 o2 : Obj) : Prop := lcEq o1.v o2.v ∧ o1.id = o2.id
+/-- scalars of the same shape: equal plain ints; same kind, same wire expression, same identity
+(the values of secrets are free) -/
+def SRel : SVal → SVal → Prop
+  | .pub a, .pub b => a = b
+  | .sc k1 l1 i1, .sc k2 l2 i2 => k1 = k2 ∧ lcEq l1 l2 ∧ i1 = i2
+  | _, _ => False
 
-def ValsRel (v1 v2 : Vals) : Prop := Forall2 (fun a b => a.1 = b.1 ∧ ObjRel a.2 b.2) v1 v2
+mutual
+/-- values of the same shape: the same nesting, related scalars -/
+def TvRel : TVal → TVal → Prop
+  | .leaf a, .leaf b => SRel a b
+  | .node ts, .node us => TvRelL ts us
+  | _, _ => False
+def TvRelL : List TVal → List TVal → Prop
+  | [], [] => True
+  | t :: ts, u :: us => TvRel t u ∧ TvRelL ts us
+  | _, _ => False
+end
+
+/-- the former name: tracked objects of the same shape -/
+abbrev ObjRel := TvRel
+
+def ValsRel (v1 v2 : Vals) : Prop := Forall2 (fun a b => a.1 = b.1 ∧ TvRel a.2 b.2) v1 v2
 
 structure CtxRel (c1 c2 : BCtx) : Prop where
   isIf : c1.isIf = c2.isIf
@@ -32,7 +51,8 @@ structure BStRel (b1 b2 : BSt) : Prop where
   stack : Forall2 CtxRel b1.stack b2.stack
 
 structure EnvRel (e1 e2 : BEnv) : Prop where
-  inputs : Forall2 ObjRel e1.inputs e2.inputs
+  inputs : Forall2 SRel e1.inputs e2.inputs
+  finputs : Forall2 SRel e1.finputs e2.finputs
   lvs : e1.lvs = e2.lvs
 
 theorem optRel_elim {α : Type} {R : α → α → Prop} {o1 o2 : Option α} (h : OptRel R o1 o2) :
@@ -67,7 +87,7 @@ theorem ValsRel.has {v1 v2 : Vals} (h : ValsRel v1 v2) (x : Nat) : v1.has x = v2
   unfold Vals.has
   rcases optRel_elim (h.get? x) with ⟨e1, e2⟩ | ⟨a, b, e1, e2, _⟩ <;> rw [e1, e2] <;> rfl
 
-theorem ValsRel.set : ∀ {v1 v2 : Vals}, ValsRel v1 v2 → ∀ (x : Nat) {o1 o2 : Obj}, ObjRel o1 o2 →
+theorem ValsRel.set : ∀ {v1 v2 : Vals}, ValsRel v1 v2 → ∀ (x : Nat) {o1 o2 : TVal}, ObjRel o1 o2 →
     ValsRel (v1.set x o1) (v2.set x o2)
   | _, _, .nil, x, o1, o2, ho => .cons ⟨rfl, ho⟩ .nil
   | _, _, .cons (a := a) (b := b) hab ht, x, o1, o2, ho => by
@@ -113,19 +133,228 @@ theorem ValsRel.setAll {v1 v2 o1 o2 : Vals} (hv : ValsRel v1 v2) (ho : ValsRel o
 theorem ValsRel.isEmpty {v1 v2 : Vals} (h : ValsRel v1 v2) : v1.isEmpty = v2.isEmpty := by
   cases h <;> rfl
 
+theorem forall2_getElem? {α : Type} {R : α → α → Prop} : ∀ {l1 l2 : List α}, Forall2 R l1 l2 → ∀ i : Nat,
+    OptRel R l1[i]? l2[i]?
+  | _, _, .nil, i => by simp only [List.getElem?_nil]; exact .none
+  | _, _, .cons hab ht, 0 => by simp only [List.getElem?_cons_zero]; exact .some hab
+  | _, _, .cons hab ht, i+1 => by simp only [List.getElem?_cons_succ]; exact forall2_getElem? ht i
+
+theorem forall2_set {α : Type} {R : α → α → Prop} : ∀ {l1 l2 : List α}, Forall2 R l1 l2 → ∀ (i : Nat) {a b : α},
+    R a b → Forall2 R (l1.set i a) (l2.set i b)
+  | _, _, .nil, i, a, b, _ => by simp only [List.set_nil]; exact .nil
+  | _, _, .cons hab ht, 0, a, b, h => by simp only [List.set_cons_zero]; exact .cons h ht
+  | _, _, .cons hab ht, i+1, a, b, h => by simp only [List.set_cons_succ]; exact .cons hab (forall2_set ht i h)
+
+/-! ## scalars and trees of the same shape -/
+theorem SRel.toVal {a b : SVal} (h : SRel a b) : ValRel a.toVal b.toVal := by
+  cases a with
+  | pub x => cases b with
+    | pub y => simp only [SRel] at h; subst h; exact ValRel.int x
+    | sc _ _ _ => exact h.elim
+  | sc k l i => cases b with
+    | pub y => exact h.elim
+    | sc k' l' i' =>
+      obtain ⟨rfl, hl, _⟩ := h
+      cases k
+      · exact ValRel.lc hl
+      · exact ValRel.lcb hl
+      · exact ValRel.fxp hl
+
+theorem SRel.sameObj {t1 t2 f1 f2 : SVal} (ht : SRel t1 t2) (hf : SRel f1 f2) : t1.sameObj f1 = t2.sameObj f2 := by
+  cases t1 <;> cases t2 <;> simp only [SRel] at ht <;> cases f1 <;> cases f2 <;> simp only [SRel] at hf
+  all_goals (try subst ht)
+  all_goals (try subst hf)
+  all_goals (try (obtain ⟨_, _, rfl⟩ := ht))
+  all_goals (try (obtain ⟨_, _, rfl⟩ := hf))
+  all_goals first
+    | rfl
+    | (cases ‹Option ℕ› <;> first | rfl | (cases ‹Option ℕ› <;> rfl))
+
+theorem SRel.isSecret {a b : SVal} (h : SRel a b) : a.isSecret = b.isSecret := by
+  cases a <;> cases b <;> first | rfl | exact h.elim
+
+theorem SRel.dcopy {a b : SVal} (h : SRel a b) : SRel a.dcopy b.dcopy := by
+  cases a with
+  | pub x => cases b with
+    | pub y => exact h
+    | sc _ _ _ => exact h.elim
+  | sc k l i => cases b with
+    | pub y => exact h.elim
+    | sc k' l' i' =>
+      obtain ⟨rfl, hl, rfl⟩ := h
+      cases k <;> exact ⟨rfl, hl, rfl⟩
+
+theorem SRel.ofVal {v1 v2 : Val} (hv : ValRel v1 v2) (n : Nat) : OptRel SRel (SVal.ofVal v1 n) (SVal.ofVal v2 n) := by
+  cases hv <;> simp only [SVal.ofVal] <;> first
+    | exact .none
+    | exact .some rfl
+    | (rename_i h; exact .some ⟨rfl, h, rfl⟩)
+
+theorem TvRel.leaf_iff {a b : SVal} : TvRel (.leaf a) (.leaf b) ↔ SRel a b := by simp only [TvRel]
+theorem TvRel.node_iff {ts us : List TVal} : TvRel (.node ts) (.node us) ↔ TvRelL ts us := by simp only [TvRel]
+
+theorem TvRelL_iff : ∀ {ts us : List TVal}, TvRelL ts us ↔ Forall2 TvRel ts us
+  | [], [] => ⟨fun _ => .nil, fun _ => by simp only [TvRelL]⟩
+  | [], _ :: _ => ⟨fun h => by simp only [TvRelL] at h, fun h => by cases h⟩
+  | _ :: _, [] => ⟨fun h => by simp only [TvRelL] at h, fun h => by cases h⟩
+  | t :: ts, u :: us => by
+    simp only [TvRelL]
+    constructor
+    · rintro ⟨h1, h2⟩; exact .cons h1 (TvRelL_iff.mp h2)
+    · intro h; cases h with | cons h1 h2 => exact ⟨h1, TvRelL_iff.mpr h2⟩
+
+mutual
+theorem TvRel.isSecret : ∀ {t u : TVal}, TvRel t u → t.isSecret = u.isSecret
+  | .leaf a, .leaf b, h => by
+    simp only [TvRel] at h
+    simp only [TVal.isSecret, PTree.all_leaf, h.isSecret]
+  | .node ts, .node us, h => by
+    simp only [TvRel] at h
+    have := TvRelL.isSecret h
+    simp only [TVal.isSecret, PTree.all] at this ⊢
+    exact this
+  | .leaf _, .node _, h => by simp only [TvRel] at h
+  | .node _, .leaf _, h => by simp only [TvRel] at h
+theorem TvRelL.isSecret : ∀ {ts us : List TVal}, TvRelL ts us → PTree.allL SVal.isSecret ts = PTree.allL SVal.isSecret us
+  | [], [], _ => rfl
+  | t :: ts, u :: us, h => by
+    simp only [TvRelL] at h
+    have h1 := TvRel.isSecret h.1
+    have h2 := TvRelL.isSecret h.2
+    simp only [TVal.isSecret] at h1
+    simp only [PTree.allL, h1, h2]
+  | [], _ :: _, h => by simp only [TvRelL] at h
+  | _ :: _, [], h => by simp only [TvRelL] at h
+end
+
+mutual
+theorem TvRel.dcopy : ∀ {t u : TVal}, TvRel t u → TvRel t.dcopy u.dcopy
+  | .leaf a, .leaf b, h => by
+    simp only [TvRel] at h
+    simp only [TVal.dcopy, PTree.map, TvRel]
+    exact h.dcopy
+  | .node ts, .node us, h => by
+    simp only [TvRel] at h
+    simp only [TVal.dcopy, PTree.map, TvRel]
+    exact TvRelL.dcopy h
+  | .leaf _, .node _, h => by simp only [TvRel] at h
+  | .node _, .leaf _, h => by simp only [TvRel] at h
+theorem TvRelL.dcopy : ∀ {ts us : List TVal}, TvRelL ts us → TvRelL (PTree.mapL SVal.dcopy ts) (PTree.mapL SVal.dcopy us)
+  | [], [], _ => by simp only [PTree.mapL, TvRelL]
+  | t :: ts, u :: us, h => by
+    simp only [TvRelL] at h
+    simp only [PTree.mapL, TvRelL]
+    exact ⟨TvRel.dcopy h.1, TvRelL.dcopy h.2⟩
+  | [], _ :: _, h => by simp only [TvRelL] at h
+  | _ :: _, [], h => by simp only [TvRelL] at h
+end
+
+theorem ValsRel.backup : ∀ {v1 v2 : Vals}, ValsRel v1 v2 → ValsRel v1.backup v2.backup
+  | _, _, .nil => .nil
+  | _, _, .cons (a := a) (b := b) hab ht => by
+    obtain ⟨k1, o1⟩ := a; obtain ⟨k2, o2⟩ := b
+    simp only [Vals.backup]
+    exact .cons ⟨hab.1, TvRel.dcopy hab.2⟩ (ValsRel.backup ht)
+
+/-- element assignment on values of the same shape -/
+theorem TvRel.set : ∀ (path : List Nat) {t u v w : TVal}, TvRel t u → TvRel v w → OptRel TvRel (t.set path v) (u.set path w)
+  | [], t, u, v, w, _, hv => by simp only [PTree.set]; exact .some hv
+  | i :: p, .leaf a, .leaf b, v, w, _, _ => by simp only [PTree.set]; exact .none
+  | i :: p, .leaf a, .node us, v, w, h, _ => by simp only [TvRel] at h
+  | i :: p, .node ts, .leaf b, v, w, h, _ => by simp only [TvRel] at h
+  | i :: p, .node ts, .node us, v, w, h, hv => by
+    simp only [TvRel] at h
+    have hf := TvRelL_iff.mp h
+    simp only [PTree.set]
+    rcases optRel_elim (forall2_getElem? hf i) with ⟨e1, e2⟩ | ⟨x, y, e1, e2, hxy⟩
+    · rw [e1, e2]; exact .none
+    · rw [e1, e2]
+      simp only
+      rcases optRel_elim (TvRel.set p hxy hv) with ⟨e3, e4⟩ | ⟨x', y', e3, e4, hxy'⟩
+      · rw [e3, e4]; exact .none
+      · rw [e3, e4]
+        simp only [Option.map_some]
+        refine .some ?_
+        simp only [TvRel]
+        exact TvRelL_iff.mpr (forall2_set hf i hxy')
+
 /-! ## merges -/
 def PairNRel {α : Type} (R : α → α → Prop) (p q : α × Nat) : Prop := R p.1 q.1 ∧ p.2 = q.2
 
-theorem mergeObj_obl {c1 c2 : LinComb} (hc : lcEq c1 c2) {t1 t2 f1 f2 : Obj} (ht : ObjRel t1 t2) (hf : ObjRel f1 f2)
-    (n : Nat) : Obl (PairNRel ObjRel) (mergeObj c1 t1 f1 n) (mergeObj c2 t2 f2 n) := by
-  unfold mergeObj
-  rw [ht.2, hf.2]
-  by_cases hid : t2.id = f2.id
-  · simp only [hid, if_true]
+theorem coerceF_obl {t1 t2 f1 f2 : Val} (ht : ValRel t1 t2) (hf : ValRel f1 f2) :
+    Obl ValRel (coerceF t1 f1) (coerceF t2 f2) := by
+  unfold coerceF
+  cases ht <;> first
+    | exact Obl.pure hf
+    | (refine Obl.bind (ensurefxp_obl hf) (fun y1 y2 hy => ?_); exact Obl.pure (ValRel.fxp hy))
+
+theorem iteScalar_obl {c1 c2 : LinComb} (hc : lcEq c1 c2) {t1 t2 f1 f2 : Val} (ht : ValRel t1 t2) (hf : ValRel f1 f2) :
+    Obl ValRel (iteScalar c1 t1 f1) (iteScalar c2 t2 f2) := by
+  unfold iteScalar
+  refine Obl.bind (coerceF_obl ht hf) (fun g1 g2 hg => ?_)
+  refine Obl.bind (subV_obl ht hg) (fun d1 d2 hd => ?_)
+  refine Obl.bind (mulLV_obl hc hd) (fun p1 p2 hp => ?_)
+  exact addV_obl hg hp
+
+theorem freshS_obl {v1 v2 : Val} (hv : ValRel v1 v2) (n : Nat) : Obl (PairNRel SRel) (freshS v1 n) (freshS v2 n) := by
+  unfold freshS
+  rcases optRel_elim (SRel.ofVal hv n) with ⟨e1, e2⟩ | ⟨a, b, e1, e2, hab⟩
+  · rw [e1]; exact Obl.raiseL
+  · rw [e1, e2]; exact Obl.pure ⟨hab, rfl⟩
+
+theorem mergeS_obl {c1 c2 : LinComb} (hc : lcEq c1 c2) {t1 t2 f1 f2 : SVal} (ht : SRel t1 t2) (hf : SRel f1 f2)
+    (n : Nat) : Obl (PairNRel SRel) (mergeS c1 t1 f1 n) (mergeS c2 t2 f2 n) := by
+  unfold mergeS
+  rw [SRel.sameObj ht hf]
+  cases t2.sameObj f2
+  · simp only [Bool.false_eq_true, if_false]
+    exact Obl.bind (iteScalar_obl hc ht.toVal hf.toVal) (fun r1 r2 hr => freshS_obl hr n)
+  · simp only [if_true]
     exact Obl.iteElseRaise (Obl.pure ⟨ht, rfl⟩)
-  · simp only [hid, if_false]
-    refine Obl.bind (iteLLL_obl hc ht.1 hf.1) (fun r1 r2 hr => ?_)
-    exact Obl.pure ⟨⟨hr, rfl⟩, rfl⟩
+
+mutual
+theorem mergeT_obl {c1 c2 : LinComb} (hc : lcEq c1 c2) : ∀ {t1 t2 f1 f2 : TVal}, TvRel t1 t2 → TvRel f1 f2 →
+    ∀ n, Obl (PairNRel TvRel) (mergeT c1 t1 f1 n) (mergeT c2 t2 f2 n)
+  | .leaf a1, .leaf a2, .leaf b1, .leaf b2, ht, hf, n => by
+    simp only [TvRel] at ht hf
+    unfold mergeT
+    refine Obl.bind (mergeS_obl hc ht hf n) (fun p1 p2 hp => ?_)
+    exact Obl.pure ⟨by simp only [TvRel]; exact hp.1, hp.2⟩
+  | .node ts1, .node ts2, .node fs1, .node fs2, ht, hf, n => by
+    simp only [TvRel] at ht hf
+    unfold mergeT
+    refine Obl.bind (mergeTL_obl hc ht hf n) (fun p1 p2 hp => ?_)
+    exact Obl.pure ⟨by simp only [TvRel]; exact hp.1, hp.2⟩
+  | .node _, .node _, .leaf _, .leaf _, _, _, n => by unfold mergeT; exact Obl.raiseL
+  | .leaf _, .leaf _, .node _, .node _, _, _, n => by unfold mergeT; exact Obl.raiseL
+  | .leaf _, .node _, _, _, ht, _, n => by simp only [TvRel] at ht
+  | .node _, .leaf _, _, _, ht, _, n => by simp only [TvRel] at ht
+  | .leaf _, .leaf _, .leaf _, .node _, _, hf, n => by simp only [TvRel] at hf
+  | .leaf _, .leaf _, .node _, .leaf _, _, hf, n => by simp only [TvRel] at hf
+  | .node _, .node _, .leaf _, .node _, _, hf, n => by simp only [TvRel] at hf
+  | .node _, .node _, .node _, .leaf _, _, hf, n => by simp only [TvRel] at hf
+theorem mergeTL_obl {c1 c2 : LinComb} (hc : lcEq c1 c2) : ∀ {ts1 ts2 fs1 fs2 : List TVal}, TvRelL ts1 ts2 → TvRelL fs1 fs2 →
+    ∀ n, Obl (PairNRel TvRelL) (mergeTL c1 ts1 fs1 n) (mergeTL c2 ts2 fs2 n)
+  | [], [], [], [], _, _, n => by unfold mergeTL; exact Obl.pure ⟨by simp only [TvRelL], rfl⟩
+  | t1 :: ts1, t2 :: ts2, f1 :: fs1, f2 :: fs2, ht, hf, n => by
+    simp only [TvRelL] at ht hf
+    unfold mergeTL
+    refine Obl.bind (mergeT_obl hc ht.1 hf.1 n) (fun p1 p2 hp => ?_)
+    obtain ⟨r1, m1⟩ := p1; obtain ⟨r2, m2⟩ := p2
+    obtain ⟨hr, hm⟩ := hp
+    simp only at hr hm
+    subst hm
+    refine Obl.bind (mergeTL_obl hc ht.2 hf.2 _) (fun q1 q2 hq => ?_)
+    exact Obl.pure ⟨by simp only [TvRelL]; exact ⟨hr, hq.1⟩, hq.2⟩
+  | [], [], _ :: _, _ :: _, _, _, n => by unfold mergeTL; exact Obl.raiseL
+  | _ :: _, _ :: _, [], [], _, _, n => by unfold mergeTL; exact Obl.raiseL
+  | [], _ :: _, _, _, ht, _, n => by simp only [TvRelL] at ht
+  | _ :: _, [], _, _, ht, _, n => by simp only [TvRelL] at ht
+  | [], [], [], _ :: _, _, hf, n => by simp only [TvRelL] at hf
+  | [], [], _ :: _, [], _, hf, n => by simp only [TvRelL] at hf
+  | _ :: _, _ :: _, [], _ :: _, _, hf, n => by simp only [TvRelL] at hf
+  | _ :: _, _ :: _, _ :: _, [], _, hf, n => by simp only [TvRelL] at hf
+end
 
 theorem mergeNodef_obl {c1 c2 : LinComb} (hc : lcEq c1 c2) {v1 v2 : Vals} (hv : ValsRel v1 v2) :
     ∀ {nd1 nd2 : Vals}, ValsRel nd1 nd2 → ∀ n, Obl (PairNRel ValsRel) (mergeNodef c1 v1 nd1 n) (mergeNodef c2 v2 nd2 n)
@@ -139,7 +368,7 @@ theorem mergeNodef_obl {c1 c2 : LinComb} (hc : lcEq c1 c2) {v1 v2 : Vals} (hv : 
     rcases optRel_elim (hv.get? k1) with ⟨e1, e2⟩ | ⟨p, q, e1, e2, hg⟩
     · simp only [e1]; exact Obl.raiseL
     · simp only [e1, e2]
-      refine Obl.bind (mergeObj_obl hc hg ho n) (fun r1 r2 hr => ?_)
+      refine Obl.bind (mergeT_obl hc hg ho n) (fun r1 r2 hr => ?_)
       obtain ⟨hr1, hr2⟩ := hr
       rw [hr2]
       refine Obl.bind (mergeNodef_obl hc hv ht _) (fun q1 q2 hq => ?_)
@@ -157,7 +386,7 @@ theorem mergeBak_obl {c1 c2 : LinComb} (hc : lcEq c1 c2) {b1 b2 : Vals} (hb : Va
     rcases optRel_elim (hb.get? k1) with ⟨e1, e2⟩ | ⟨p, q, e1, e2, hg⟩
     · simp only [e1]; exact Obl.raiseL
     · simp only [e1, e2]
-      refine Obl.bind (mergeObj_obl hc ho hg n) (fun r1 r2 hr => ?_)
+      refine Obl.bind (mergeT_obl hc ho hg n) (fun r1 r2 hr => ?_)
       obtain ⟨hr1, hr2⟩ := hr
       rw [hr2]
       refine Obl.bind (mergeBak_obl hc hb ht _) (fun q1 q2 hq => ?_)
@@ -170,7 +399,7 @@ theorem enter_obl {c1 c2 : BCtx} (hctx : CtxRel c1 c2) {n1 n2 : LinComb} (hn : l
     (hb : BVRel b1 b2) : Obl CtxRel (c1.enter n1 b1) (c2.enter n2 b2) := by
   unfold BCtx.enter
   refine Obl.bind (addGuard_obl (ValRel.lcb hn)) (fun og1 og2 hog => ?_)
-  exact Obl.pure ⟨hctx.isIf, hb.vals, hn, hctx.icond, hctx.nodefvals, hog⟩
+  exact Obl.pure ⟨hctx.isIf, hb.vals.backup, hn, hctx.icond, hctx.nodefvals, hog⟩
 
 theorem exit_obl {c1 c2 : BCtx} (hctx : CtxRel c1 c2) {b1 b2 : BV} (hb : BVRel b1 b2) :
     Obl CBRel (c1.exit b1) (c2.exit b2) := by
@@ -210,7 +439,7 @@ theorem condLC_obl {v1 v2 : Val} (hv : ValRel v1 v2) : Obl lcEq (condLC v1) (con
   rename_i h
   exact Obl.pure h
 
-def guardBakRel_init : GuardBakRel ⟨none, false, oneSafe⟩ ⟨none, false, oneSafe⟩ := ⟨rfl, rfl⟩
+theorem guardBakRel_init : GuardBakRel ⟨none, false, oneSafe⟩ ⟨none, false, oneSafe⟩ := ⟨rfl, rfl⟩
 
 theorem ifNew_obl {c1 c2 : LinComb} (hc : lcEq c1 c2) {b1 b2 : BV} (hb : BVRel b1 b2) :
     Obl CtxRel (ifNew c1 b1) (ifNew c2 b2) := by
@@ -382,69 +611,187 @@ theorem bBreakif_obl {v1 v2 : Val} (hv : ValRel v1 v2) {b1 b2 : BSt} (hb : BStRe
 
 
 /-! ## expressions -/
-theorem forall2_getElem? {α : Type} {R : α → α → Prop} : ∀ {l1 l2 : List α}, Forall2 R l1 l2 → ∀ i : Nat,
-    OptRel R l1[i]? l2[i]?
-  | _, _, .nil, i => by simp only [List.getElem?_nil]; exact .none
-  | _, _, .cons hab ht, 0 => by simp only [List.getElem?_cons_zero]; exact .some hab
-  | _, _, .cons hab ht, i+1 => by simp only [List.getElem?_cons_succ]; exact forall2_getElem? ht i
+theorem cmpOK_rel {a1 a2 b1 b2 : Val} (ha : ValRel a1 a2) (hb : ValRel b1 b2) : cmpOK a1 b1 = cmpOK a2 b2 := by
+  cases ha <;> cases hb <;> rfl
+theorem mulOK_rel {a1 a2 b1 b2 : Val} (ha : ValRel a1 a2) (hb : ValRel b1 b2) : mulOK a1 b1 = mulOK a2 b2 := by
+  cases ha <;> cases hb <;> rfl
+theorem bothBool_rel {a1 a2 b1 b2 : Val} (ha : ValRel a1 a2) (hb : ValRel b1 b2) : bothBool a1 b1 = bothBool a2 b2 := by
+  cases ha <;> cases hb <;> rfl
 
-theorem evalE_obl {e1 e2 : BEnv} (he : EnvRel e1 e2) {b1 b2 : BV} (hb : BVRel b1 b2) :
-    ∀ e : BExpr, Obl ValRel (evalE e1 b1 e) (evalE e2 b2 e)
-  | .var x => by
+theorem binS_obl {op : Val → Val → M Val} {ok : Val → Val → Bool}
+    (hop : ∀ a1 a2 b1 b2, ValRel a1 a2 → ValRel b1 b2 → Obl ValRel (op a1 b1) (op a2 b2))
+    (hok : ∀ a1 a2 b1 b2, ValRel a1 a2 → ValRel b1 b2 → ok a1 b1 = ok a2 b2)
+    {x1 x2 y1 y2 : TVal} (hx : TvRel x1 x2) (hy : TvRel y1 y2) (n : Nat) :
+    Obl (PairNRel TvRel) (binS op ok x1 y1 n) (binS op ok x2 y2 n) := by
+  unfold binS
+  cases x1 with
+  | node ts1 => exact Obl.raiseL
+  | leaf a1 => cases x2 with
+    | node ts2 => simp only [TvRel] at hx
+    | leaf a2 => cases y1 with
+      | node us1 => exact Obl.raiseL
+      | leaf b1 => cases y2 with
+        | node us2 => simp only [TvRel] at hy
+        | leaf b2 =>
+          simp only [TvRel] at hx hy
+          simp only
+          rw [hok _ _ _ _ hx.toVal hy.toVal]
+          cases ok a2.toVal b2.toVal
+          · simp only [Bool.false_eq_true, if_false]; exact Obl.raiseL
+          · simp only [if_true]
+            refine Obl.bind (hop _ _ _ _ hx.toVal hy.toVal) (fun r1 r2 hr => ?_)
+            refine Obl.bind (freshS_obl hr n) (fun p1 p2 hp => ?_)
+            exact Obl.pure ⟨by simp only [TvRel]; exact hp.1, hp.2⟩
+
+theorem notS_obl {x1 x2 : TVal} (hx : TvRel x1 x2) (n : Nat) : Obl (PairNRel TvRel) (notS x1 n) (notS x2 n) := by
+  unfold notS
+  cases x1 with
+  | node ts1 => exact Obl.raiseL
+  | leaf a1 => cases x2 with
+    | node ts2 => simp only [TvRel] at hx
+    | leaf a2 =>
+      simp only [TvRel] at hx
+      cases a1 with
+      | pub c => exact Obl.raiseL
+      | sc k l i => cases a2 with
+        | pub c => exact hx.elim
+        | sc k' l' i' =>
+          obtain ⟨rfl, hl, rfl⟩ := hx
+          cases k
+          · exact Obl.raiseL
+          · simp only
+            refine Obl.bind (boolNot_obl hl) (fun r1 r2 hr => ?_)
+            exact Obl.pure ⟨by simp only [TvRel]; exact ⟨rfl, hr, rfl⟩, rfl⟩
+          · exact Obl.raiseL
+
+mutual
+theorem evalE_obl {e1 e2 : BEnv} (he : EnvRel e1 e2) {v1 v2 : Vals} (hv : ValsRel v1 v2) :
+    ∀ (e : BExpr) (n : Nat), Obl (PairNRel TvRel) (evalE e1 v1 e n) (evalE e2 v2 e n)
+  | .var x, n => by
     unfold evalE
-    rcases optRel_elim (hb.vals.get? x) with ⟨h1, h2⟩ | ⟨p, q, h1, h2, hpq⟩
+    rcases optRel_elim (hv.get? x) with ⟨h1, h2⟩ | ⟨p, q, h1, h2, hpq⟩
     · rw [h1]; exact Obl.raiseL
-    · rw [h1, h2]; exact Obl.pure (ValRel.lc hpq.1)
-  | .inp i => by
+    · rw [h1, h2]; exact Obl.pure ⟨hpq, rfl⟩
+  | .inp i, n => by
     unfold evalE
     rcases optRel_elim (forall2_getElem? he.inputs i) with ⟨h1, h2⟩ | ⟨p, q, h1, h2, hpq⟩
     · rw [h1]; exact Obl.raiseL
-    · rw [h1, h2]; exact Obl.pure (ValRel.lc hpq.1)
-  | .const c => by
+    · rw [h1, h2]; exact Obl.pure ⟨by simp only [TvRel]; exact hpq, rfl⟩
+  | .finp i, n => by
     unfold evalE
-    exact Obl.pure (ValRel.int c)
-  | .loopvar v => by
+    rcases optRel_elim (forall2_getElem? he.finputs i) with ⟨h1, h2⟩ | ⟨p, q, h1, h2, hpq⟩
+    · rw [h1]; exact Obl.raiseL
+    · rw [h1, h2]; exact Obl.pure ⟨by simp only [TvRel]; exact hpq, rfl⟩
+  | .const c, n => by
+    unfold evalE
+    exact Obl.pure ⟨by simp only [TvRel, SRel], rfl⟩
+  | .loopvar v, n => by
     unfold evalE
     rw [he.lvs]
     cases lookupLv e2.lvs v with
     | none => exact Obl.raiseL
-    | some k => exact Obl.pure (ValRel.int k)
-  | .add a b => by
+    | some k => exact Obl.pure ⟨by simp only [TvRel, SRel], rfl⟩
+  | .add a b, n => by
     unfold evalE
-    exact Obl.bind (evalE_obl he hb a) (fun x1 x2 hx => Obl.bind (evalE_obl he hb b) (fun y1 y2 hy => addV_obl hx hy))
-  | .sub a b => by
+    refine Obl.bind (evalE_obl he hv a n) (fun p1 p2 hp => ?_)
+    obtain ⟨x1, m1⟩ := p1; obtain ⟨x2, m2⟩ := p2; obtain ⟨hx, hm⟩ := hp; simp only at hx hm; subst hm
+    refine Obl.bind (evalE_obl he hv b _) (fun q1 q2 hq => ?_)
+    obtain ⟨y1, k1⟩ := q1; obtain ⟨y2, k2⟩ := q2; obtain ⟨hy, hk⟩ := hq; simp only at hy hk; subst hk
+    exact binS_obl (fun _ _ _ _ ha hb => addV_obl ha hb) (fun _ _ _ _ _ _ => rfl) hx hy _
+  | .sub a b, n => by
     unfold evalE
-    exact Obl.bind (evalE_obl he hb a) (fun x1 x2 hx => Obl.bind (evalE_obl he hb b) (fun y1 y2 hy => subV_obl hx hy))
-  | .mul a b => by
+    refine Obl.bind (evalE_obl he hv a n) (fun p1 p2 hp => ?_)
+    obtain ⟨x1, m1⟩ := p1; obtain ⟨x2, m2⟩ := p2; obtain ⟨hx, hm⟩ := hp; simp only at hx hm; subst hm
+    refine Obl.bind (evalE_obl he hv b _) (fun q1 q2 hq => ?_)
+    obtain ⟨y1, k1⟩ := q1; obtain ⟨y2, k2⟩ := q2; obtain ⟨hy, hk⟩ := hq; simp only at hy hk; subst hk
+    exact binS_obl (fun _ _ _ _ ha hb => subV_obl ha hb) (fun _ _ _ _ _ _ => rfl) hx hy _
+  | .mul a b, n => by
     unfold evalE
-    exact Obl.bind (evalE_obl he hb a) (fun x1 x2 hx => Obl.bind (evalE_obl he hb b) (fun y1 y2 hy => mulV_obl hx hy))
+    refine Obl.bind (evalE_obl he hv a n) (fun p1 p2 hp => ?_)
+    obtain ⟨x1, m1⟩ := p1; obtain ⟨x2, m2⟩ := p2; obtain ⟨hx, hm⟩ := hp; simp only at hx hm; subst hm
+    refine Obl.bind (evalE_obl he hv b _) (fun q1 q2 hq => ?_)
+    obtain ⟨y1, k1⟩ := q1; obtain ⟨y2, k2⟩ := q2; obtain ⟨hy, hk⟩ := hq; simp only at hy hk; subst hk
+    exact binS_obl (fun _ _ _ _ ha hb => mulV_obl ha hb) (fun _ _ _ _ ha hb => mulOK_rel ha hb) hx hy _
+  | .cmp op a b, n => by
+    unfold evalE
+    refine Obl.bind (evalE_obl he hv a n) (fun p1 p2 hp => ?_)
+    obtain ⟨x1, m1⟩ := p1; obtain ⟨x2, m2⟩ := p2; obtain ⟨hx, hm⟩ := hp; simp only at hx hm; subst hm
+    refine Obl.bind (evalE_obl he hv b _) (fun q1 q2 hq => ?_)
+    obtain ⟨y1, k1⟩ := q1; obtain ⟨y2, k2⟩ := q2; obtain ⟨hy, hk⟩ := hq; simp only at hy hk; subst hk
+    exact binS_obl (fun _ _ _ _ ha hb => cmpV_obl op ha hb) (fun _ _ _ _ ha hb => cmpOK_rel ha hb) hx hy _
+  | .not a, n => by
+    unfold evalE
+    refine Obl.bind (evalE_obl he hv a n) (fun p1 p2 hp => ?_)
+    obtain ⟨x1, m1⟩ := p1; obtain ⟨x2, m2⟩ := p2; obtain ⟨hx, hm⟩ := hp; simp only at hx hm; subst hm
+    exact notS_obl hx _
+  | .and a b, n => by
+    unfold evalE
+    refine Obl.bind (evalE_obl he hv a n) (fun p1 p2 hp => ?_)
+    obtain ⟨x1, m1⟩ := p1; obtain ⟨x2, m2⟩ := p2; obtain ⟨hx, hm⟩ := hp; simp only at hx hm; subst hm
+    refine Obl.bind (evalE_obl he hv b _) (fun q1 q2 hq => ?_)
+    obtain ⟨y1, k1⟩ := q1; obtain ⟨y2, k2⟩ := q2; obtain ⟨hy, hk⟩ := hq; simp only at hy hk; subst hk
+    exact binS_obl (fun _ _ _ _ ha hb => bwV_obl .and ha hb) (fun _ _ _ _ ha hb => bothBool_rel ha hb) hx hy _
+  | .or a b, n => by
+    unfold evalE
+    refine Obl.bind (evalE_obl he hv a n) (fun p1 p2 hp => ?_)
+    obtain ⟨x1, m1⟩ := p1; obtain ⟨x2, m2⟩ := p2; obtain ⟨hx, hm⟩ := hp; simp only at hx hm; subst hm
+    refine Obl.bind (evalE_obl he hv b _) (fun q1 q2 hq => ?_)
+    obtain ⟨y1, k1⟩ := q1; obtain ⟨y2, k2⟩ := q2; obtain ⟨hy, hk⟩ := hq; simp only at hy hk; subst hk
+    exact binS_obl (fun _ _ _ _ ha hb => bwV_obl .or ha hb) (fun _ _ _ _ ha hb => bothBool_rel ha hb) hx hy _
+  | .list es, n => by
+    unfold evalE
+    refine Obl.bind (evalEs_obl he hv es n) (fun p1 p2 hp => ?_)
+    exact Obl.pure ⟨by simp only [TvRel]; exact hp.1, hp.2⟩
+  | .item e i, n => by
+    unfold evalE
+    refine Obl.bind (evalE_obl he hv e n) (fun p1 p2 hp => ?_)
+    obtain ⟨x1, m1⟩ := p1; obtain ⟨x2, m2⟩ := p2; obtain ⟨hx, hm⟩ := hp; simp only at hx hm; subst hm
+    cases x1 with
+    | leaf a1 => exact Obl.raiseL
+    | node ts1 => cases x2 with
+      | leaf a2 => simp only [TvRel] at hx
+      | node ts2 =>
+        simp only [TvRel] at hx
+        simp only
+        rcases optRel_elim (forall2_getElem? (TvRelL_iff.mp hx) i) with ⟨h1, h2⟩ | ⟨p, q, h1, h2, hpq⟩
+        · rw [h1]; exact Obl.raiseL
+        · rw [h1, h2]; exact Obl.pure ⟨hpq, rfl⟩
+theorem evalEs_obl {e1 e2 : BEnv} (he : EnvRel e1 e2) {v1 v2 : Vals} (hv : ValsRel v1 v2) :
+    ∀ (es : BExprs) (n : Nat), Obl (PairNRel TvRelL) (evalEs e1 v1 es n) (evalEs e2 v2 es n)
+  | .nil, n => by
+    unfold evalEs
+    exact Obl.pure ⟨by simp only [TvRelL], rfl⟩
+  | .cons e es, n => by
+    unfold evalEs
+    refine Obl.bind (evalE_obl he hv e n) (fun p1 p2 hp => ?_)
+    obtain ⟨x1, m1⟩ := p1; obtain ⟨x2, m2⟩ := p2; obtain ⟨hx, hm⟩ := hp; simp only at hx hm; subst hm
+    refine Obl.bind (evalEs_obl he hv es _) (fun q1 q2 hq => ?_)
+    exact Obl.pure ⟨by simp only [TvRelL]; exact ⟨hx, hq.1⟩, hq.2⟩
+end
 
 theorem evalC_obl {e1 e2 : BEnv} (he : EnvRel e1 e2) {b1 b2 : BV} (hb : BVRel b1 b2) (c : BCond) :
     Obl ValRel (evalC e1 b1 c) (evalC e2 b2 c) := by
   unfold evalC
-  exact Obl.bind (evalE_obl he hb c.lhs) (fun x1 x2 hx => Obl.bind (evalE_obl he hb c.rhs) (fun y1 y2 hy => cmpV_obl c.op hx hy))
+  rw [hb.next]
+  refine Obl.bind (evalE_obl he hb.vals c _) (fun p1 p2 hp => ?_)
+  obtain ⟨x1, m1⟩ := p1; obtain ⟨x2, m2⟩ := p2; obtain ⟨hx, _⟩ := hp
+  simp only at hx ⊢
+  cases x1 with
+  | node ts1 => exact Obl.raiseL
+  | leaf a1 => cases x2 with
+    | node ts2 => simp only [TvRel] at hx
+    | leaf a2 =>
+      simp only [TvRel] at hx
+      exact Obl.pure hx.toVal
 
-theorem leafObj_rel {e1 e2 : BEnv} (he : EnvRel e1 e2) {b1 b2 : BV} (hb : BVRel b1 b2) (e : BExpr) :
-    OptRel ObjRel (leafObj e1 b1 e) (leafObj e2 b2 e) := by
-  cases e <;> simp only [leafObj]
-  · exact hb.vals.get? _
-  · exact forall2_getElem? he.inputs _
-  all_goals exact .none
-
-theorem bindNew_obl (x : Nat) {v1 v2 : Val} (hv : ValRel v1 v2) {b1 b2 : BSt} (hb : BStRel b1 b2) :
-    Obl BStRel (bindNew x v1 b1) (bindNew x v2 b2) := by
-  unfold bindNew
-  cases hv <;> first | exact Obl.raiseL | skip
-  rename_i l1 l2 h
-  rw [hb.bv.next]
-  exact Obl.pure ⟨⟨hb.bv.vals.set x ⟨h, rfl⟩, by simp only [hb.bv.next]⟩, hb.stack⟩
-
-theorem bindVar_obl {e1 e2 : BEnv} (he : EnvRel e1 e2) (x : Nat) (e : BExpr) {v1 v2 : Val} (hv : ValRel v1 v2)
-    {b1 b2 : BSt} (hb : BStRel b1 b2) : Obl BStRel (bindVar e1 x e v1 b1) (bindVar e2 x e v2 b2) := by
-  unfold bindVar
-  rcases optRel_elim (leafObj_rel he hb.bv e) with ⟨h1, h2⟩ | ⟨p, q, h1, h2, hpq⟩
-  · rw [h1, h2]; exact bindNew_obl x hv hb
-  · rw [h1, h2]; exact Obl.pure ⟨⟨hb.bv.vals.set x hpq, hb.bv.next⟩, hb.stack⟩
+theorem bindT_obl (x : Nat) {t1 t2 : TVal} (ht : TvRel t1 t2) (n : Nat) {b1 b2 : BSt} (hb : BStRel b1 b2) :
+    Obl BStRel (bindT x t1 n b1) (bindT x t2 n b2) := by
+  unfold bindT
+  rw [TvRel.isSecret ht]
+  cases t2.isSecret
+  · simp only [Bool.false_eq_true, if_false]; exact Obl.raiseL
+  · simp only [if_true]
+    exact Obl.pure ⟨⟨hb.bv.vals.set x ht, rfl⟩, hb.stack⟩
 
 theorem guardedM_obl {α : Type} {R : α → α → Prop} {c1 c2 : LinComb} (hc : lcEq c1 c2) {m1 m2 : M α}
     (hm : Obl R m1 m2) : Obl R (guardedM c1 m1) (guardedM c2 m2) := by
@@ -454,15 +801,38 @@ theorem guardedM_obl {α : Type} {R : α → α → Prop} {c1 c2 : LinComb} (hc 
   refine Obl.bind (restoreGuard_obl hog) (fun _ _ _ => ?_)
   exact Obl.pure ha
 
-theorem iteThunks_obl {c1 c2 : LinComb} (hc : lcEq c1 c2) {t1 t2 f1 f2 : M Val} (ht : Obl ValRel t1 t2)
-    (hf : Obl ValRel f1 f2) : Obl ValRel (iteThunks c1 t1 f1) (iteThunks c2 t2 f2) := by
+theorem iteVals_obl {c1 c2 : LinComb} (hc : lcEq c1 c2) {t1 t2 f1 f2 : TVal} (ht : TvRel t1 t2) (hf : TvRel f1 f2) (n : Nat) :
+    Obl (PairNRel TvRel) (iteVals c1 t1 f1 n) (iteVals c2 t2 f2 n) := by
+  unfold iteVals
+  cases t1 with
+  | leaf a1 => cases t2 with
+    | node _ => simp only [TvRel] at ht
+    | leaf a2 => cases f1 with
+      | leaf b1 => cases f2 with
+        | node _ => simp only [TvRel] at hf
+        | leaf b2 =>
+          simp only [TvRel] at ht hf
+          simp only
+          refine Obl.bind (iteScalar_obl hc ht.toVal hf.toVal) (fun r1 r2 hr => ?_)
+          refine Obl.bind (freshS_obl hr n) (fun p1 p2 hp => ?_)
+          exact Obl.pure ⟨by simp only [TvRel]; exact hp.1, hp.2⟩
+      | node us1 => cases f2 with
+        | leaf _ => simp only [TvRel] at hf
+        | node us2 => simp only; exact mergeT_obl hc ht hf n
+  | node ts1 => cases t2 with
+    | leaf _ => simp only [TvRel] at ht
+    | node ts2 => simp only; exact mergeT_obl hc ht hf n
+
+theorem iteThunks_obl {c1 c2 : LinComb} (hc : lcEq c1 c2) {t1 t2 f1 f2 : Nat → M (TVal × Nat)}
+    (ht : ∀ n, Obl (PairNRel TvRel) (t1 n) (t2 n)) (hf : ∀ n, Obl (PairNRel TvRel) (f1 n) (f2 n)) (n : Nat) :
+    Obl (PairNRel TvRel) (iteThunks c1 t1 f1 n) (iteThunks c2 t2 f2 n) := by
   unfold iteThunks
-  refine Obl.bind (guardedM_obl hc ht) (fun tv1 tv2 htv => ?_)
+  refine Obl.bind (guardedM_obl hc (ht n)) (fun p1 p2 hp => ?_)
+  obtain ⟨x1, m1⟩ := p1; obtain ⟨x2, m2⟩ := p2; obtain ⟨hx, hm⟩ := hp; simp only at hx hm; subst hm
   refine Obl.bind (boolNot_obl hc) (fun n1 n2 hn => ?_)
-  refine Obl.bind (guardedM_obl hn hf) (fun fv1 fv2 hfv => ?_)
-  refine Obl.bind (subV_obl htv hfv) (fun d1 d2 hd => ?_)
-  refine Obl.bind (mulLV_obl hc hd) (fun p1 p2 hp => ?_)
-  exact addV_obl hfv hp
+  refine Obl.bind (guardedM_obl hn (hf _)) (fun q1 q2 hq => ?_)
+  obtain ⟨y1, k1⟩ := q1; obtain ⟨y2, k2⟩ := q2; obtain ⟨hy, hk⟩ := hq; simp only at hy hk; subst hk
+  exact iteVals_obl hc hx hy _
 
 theorem iterM_obl {β : Type} {R : β → β → Prop} {f1 f2 : Nat → β → M β}
     (hf : ∀ i b1 b2, R b1 b2 → Obl R (f1 i b1) (f2 i b2)) :
@@ -490,7 +860,7 @@ theorem whileRound_obl {e1 e2 : BEnv} (he : EnvRel e1 e2) {body1 body2 : BSt →
 
 theorem EnvRel.push {e1 e2 : BEnv} (he : EnvRel e1 e2) (lv : Nat) (k : Int) :
     EnvRel { e1 with lvs := (lv, k) :: e1.lvs } { e2 with lvs := (lv, k) :: e2.lvs } :=
-  ⟨he.inputs, by simp only [he.lvs]⟩
+  ⟨he.inputs, he.finputs, by simp only [he.lvs]⟩
 
 theorem forRound_obl {e1 e2 : BEnv} (he : EnvRel e1 e2) (lv : Nat) {st1 st2 : Val} (hst : ValRel st1 st2)
     {body1 body2 : BEnv → BSt → M BSt}
@@ -507,13 +877,43 @@ theorem execStmt_obl : ∀ (st : BStmt) {e1 e2 : BEnv}, EnvRel e1 e2 → ∀ {b1
     Obl BStRel (execStmt e1 st b1) (execStmt e2 st b2)
   | .assign x e, e1, e2, he, b1, b2, hb => by
     unfold execStmt
-    exact Obl.bind (evalE_obl he hb.bv e) (fun v1 v2 hv => bindVar_obl he x e hv hb)
+    rw [hb.bv.next]
+    refine Obl.bind (evalE_obl he hb.bv.vals e _) (fun p1 p2 hp => ?_)
+    obtain ⟨x1, m1⟩ := p1; obtain ⟨x2, m2⟩ := p2; obtain ⟨hx, hm⟩ := hp; simp only at hx hm; subst hm
+    exact bindT_obl x hx _ hb
+  | .setitem x path e, e1, e2, he, b1, b2, hb => by
+    unfold execStmt
+    rw [hb.bv.next]
+    refine Obl.bind (evalE_obl he hb.bv.vals e _) (fun p1 p2 hp => ?_)
+    obtain ⟨x1, m1⟩ := p1; obtain ⟨x2, m2⟩ := p2; obtain ⟨hx, hm⟩ := hp; simp only at hx hm; subst hm
+    simp only
+    rcases optRel_elim (hb.bv.vals.get? x) with ⟨h1, h2⟩ | ⟨p, q, h1, h2, hpq⟩
+    · rw [h1]; exact Obl.raiseL
+    · rw [h1, h2]
+      simp only
+      rcases optRel_elim (TvRel.set path hpq hx) with ⟨h3, h4⟩ | ⟨p', q', h3, h4, hpq'⟩
+      · rw [h3]; exact Obl.raiseL
+      · rw [h3, h4]; exact bindT_obl x hpq' _ hb
+  | .sel x c t f, e1, e2, he, b1, b2, hb => by
+    unfold execStmt
+    refine Obl.bind (evalC_obl he hb.bv c) (fun v1 v2 hv => ?_)
+    rw [hb.bv.next]
+    refine Obl.bind (evalE_obl he hb.bv.vals t _) (fun p1 p2 hp => ?_)
+    obtain ⟨x1, m1⟩ := p1; obtain ⟨x2, m2⟩ := p2; obtain ⟨hx, hm⟩ := hp; simp only at hx hm; subst hm
+    refine Obl.bind (evalE_obl he hb.bv.vals f _) (fun q1 q2 hq => ?_)
+    obtain ⟨y1, k1⟩ := q1; obtain ⟨y2, k2⟩ := q2; obtain ⟨hy, hk⟩ := hq; simp only at hy hk; subst hk
+    refine Obl.bind (condLC_obl hv) (fun c1 c2 hc => ?_)
+    refine Obl.bind (mergeT_obl hc hx hy _) (fun r1 r2 hr => ?_)
+    obtain ⟨z1, j1⟩ := r1; obtain ⟨z2, j2⟩ := r2; obtain ⟨hz, hj⟩ := hr; simp only at hz hj; subst hj
+    exact bindT_obl x hz _ hb
   | .ite x c t f, e1, e2, he, b1, b2, hb => by
     unfold execStmt
     refine Obl.bind (evalC_obl he hb.bv c) (fun v1 v2 hv => ?_)
     refine Obl.bind (condLC_obl hv) (fun c1 c2 hc => ?_)
-    refine Obl.bind (iteThunks_obl hc (evalE_obl he hb.bv t) (evalE_obl he hb.bv f)) (fun r1 r2 hr => ?_)
-    exact bindNew_obl x hr hb
+    rw [hb.bv.next]
+    refine Obl.bind (iteThunks_obl hc (evalE_obl he hb.bv.vals t) (evalE_obl he hb.bv.vals f) _) (fun r1 r2 hr => ?_)
+    obtain ⟨z1, j1⟩ := r1; obtain ⟨z2, j2⟩ := r2; obtain ⟨hz, hj⟩ := hr; simp only at hz hj; subst hj
+    exact bindT_obl x hz _ hb
   | .ifs c body rest, e1, e2, he, b1, b2, hb => by
     unfold execStmt
     refine Obl.bind (evalC_obl he hb.bv c) (fun v1 v2 hv => ?_)
@@ -522,7 +922,7 @@ theorem execStmt_obl : ∀ (st : BStmt) {e1 e2 : BEnv}, EnvRel e1 e2 → ∀ {b1
     exact execIfRest_obl rest he hy
   | .forr lv bound mx body, e1, e2, he, b1, b2, hb => by
     unfold execStmt
-    refine Obl.bind (evalE_obl he hb.bv bound) (fun s1 s2 hs => ?_)
+    refine Obl.bind (evalC_obl he hb.bv bound) (fun s1 s2 hs => ?_)
     cases hs <;> first | exact Obl.raiseL | skip
     rename_i l1 l2 hl
     dsimp only
@@ -567,39 +967,110 @@ theorem execIfRest_obl : ∀ (r : BIfRest) {e1 e2 : BEnv}, EnvRel e1 e2 → ∀ 
 end
 
 /-! ## a complete run -/
-theorem setupVars_obl : ∀ {i1 i2 : List (Nat × Int)}, Forall2 (fun a b => a.1 = b.1) i1 i2 → ∀ {b1 b2 : BV},
+
+/-- initial values of the same shape: the same kind at every leaf (the values are free) -/
+def ILeafRel : ILeaf → ILeaf → Prop
+  | .int _, .int _ => True
+  | .bool _, .bool _ => True
+  | .fxp _ _, .fxp _ _ => True
+  | _, _ => False
+
+mutual
+def IRel : IVal → IVal → Prop
+  | .leaf a, .leaf b => ILeafRel a b
+  | .node ts, .node us => IRelL ts us
+  | _, _ => False
+def IRelL : List IVal → List IVal → Prop
+  | [], [] => True
+  | t :: ts, u :: us => IRel t u ∧ IRelL ts us
+  | _, _ => False
+end
+
+theorem setupLeaf_obl {a1 a2 : ILeaf} (ha : ILeafRel a1 a2) (n : Nat) :
+    Obl (PairNRel SRel) (setupLeaf a1 n) (setupLeaf a2 n) := by
+  cases a1 <;> cases a2 <;> simp only [ILeafRel] at ha <;> simp only [setupLeaf]
+  · refine Obl.bind (privVal_obl _ _) (fun l1 l2 hl => ?_)
+    exact Obl.pure ⟨⟨rfl, hl, rfl⟩, rfl⟩
+  · refine Obl.bind (privVal_obl _ _) (fun l1 l2 hl => ?_)
+    refine Obl.bind (cmpV_obl .eq (ValRel.lc hl) (ValRel.int 1)) (fun v1 v2 hv => ?_)
+    cases hv <;> first | exact Obl.raiseL | skip
+    rename_i c1 c2 hc
+    exact Obl.pure ⟨⟨rfl, hc, rfl⟩, rfl⟩
+  · refine Obl.bind (mkVal_obl .privx (by decide) rfl rfl) (fun v1 v2 hv => ?_)
+    cases hv <;> first | exact Obl.raiseL | skip
+    rename_i c1 c2 hc
+    exact Obl.pure ⟨⟨rfl, hc, rfl⟩, rfl⟩
+
+mutual
+theorem setupT_obl : ∀ {v1 v2 : IVal}, IRel v1 v2 → ∀ n, Obl (PairNRel TvRel) (setupT v1 n) (setupT v2 n)
+  | .leaf a, .leaf b, h, n => by
+    simp only [IRel] at h
+    unfold setupT
+    refine Obl.bind (setupLeaf_obl h n) (fun p1 p2 hp => ?_)
+    exact Obl.pure ⟨by simp only [TvRel]; exact hp.1, hp.2⟩
+  | .node ts, .node us, h, n => by
+    simp only [IRel] at h
+    unfold setupT
+    refine Obl.bind (setupTL_obl h n) (fun p1 p2 hp => ?_)
+    exact Obl.pure ⟨by simp only [TvRel]; exact hp.1, hp.2⟩
+  | .leaf _, .node _, h, n => by simp only [IRel] at h
+  | .node _, .leaf _, h, n => by simp only [IRel] at h
+theorem setupTL_obl : ∀ {vs1 vs2 : List IVal}, IRelL vs1 vs2 → ∀ n, Obl (PairNRel TvRelL) (setupTL vs1 n) (setupTL vs2 n)
+  | [], [], _, n => by unfold setupTL; exact Obl.pure ⟨by simp only [TvRelL], rfl⟩
+  | v1 :: vs1, v2 :: vs2, h, n => by
+    simp only [IRelL] at h
+    unfold setupTL
+    refine Obl.bind (setupT_obl h.1 n) (fun p1 p2 hp => ?_)
+    obtain ⟨x1, m1⟩ := p1; obtain ⟨x2, m2⟩ := p2; obtain ⟨hx, hm⟩ := hp; simp only at hx hm; subst hm
+    refine Obl.bind (setupTL_obl h.2 _) (fun q1 q2 hq => ?_)
+    exact Obl.pure ⟨by simp only [TvRelL]; exact ⟨hx, hq.1⟩, hq.2⟩
+  | [], _ :: _, h, n => by simp only [IRelL] at h
+  | _ :: _, [], h, n => by simp only [IRelL] at h
+end
+
+theorem setupVars_obl : ∀ {i1 i2 : List (Nat × IVal)}, Forall2 (fun a b => a.1 = b.1 ∧ IRel a.2 b.2) i1 i2 → ∀ {b1 b2 : BV},
     BVRel b1 b2 → Obl BVRel (setupVars i1 b1) (setupVars i2 b2)
   | _, _, .nil, b1, b2, hb => Obl.pure hb
   | _, _, .cons (a := a) (b := b) hab ht, b1, b2, hb => by
     obtain ⟨k1, v1⟩ := a; obtain ⟨k2, v2⟩ := b
-    simp only at hab
-    subst hab
+    obtain ⟨hk, hv⟩ := hab
+    simp only at hk hv
+    subst hk
     unfold setupVars
-    refine Obl.bind (privVal_obl v1 v2) (fun l1 l2 hl => ?_)
     rw [hb.next]
-    exact setupVars_obl ht ⟨hb.vals.set k1 ⟨hl, rfl⟩, by simp only [hb.next]⟩
+    refine Obl.bind (setupT_obl hv _) (fun p1 p2 hp => ?_)
+    obtain ⟨x1, m1⟩ := p1; obtain ⟨x2, m2⟩ := p2; obtain ⟨hx, hm⟩ := hp; simp only at hx hm; subst hm
+    exact setupVars_obl ht ⟨hb.vals.set k1 hx, rfl⟩
 
-theorem setupInputs_obl : ∀ {i1 i2 : List Int}, i1.length = i2.length → ∀ n,
-    Obl (Forall2 ObjRel) (setupInputs i1 n) (setupInputs i2 n)
-  | [], [], _, n => Obl.pure .nil
-  | [], _ :: _, h, n => by simp at h
-  | _ :: _, [], h, n => by simp at h
-  | v1 :: r1, v2 :: r2, h, n => by
+theorem setupInputs_obl : ∀ {i1 i2 : List ILeaf}, Forall2 ILeafRel i1 i2 → ∀ n,
+    Obl (PairNRel (Forall2 SRel)) (setupInputs i1 n) (setupInputs i2 n)
+  | _, _, .nil, n => Obl.pure ⟨.nil, rfl⟩
+  | _, _, .cons hab ht, n => by
     unfold setupInputs
-    refine Obl.bind (privVal_obl v1 v2) (fun l1 l2 hl => ?_)
-    refine Obl.bind (setupInputs_obl (by simpa using h) (n+1)) (fun o1 o2 ho => ?_)
-    exact Obl.pure (.cons ⟨hl, rfl⟩ ho)
+    refine Obl.bind (setupLeaf_obl hab n) (fun p1 p2 hp => ?_)
+    obtain ⟨x1, m1⟩ := p1; obtain ⟨x2, m2⟩ := p2; obtain ⟨hx, hm⟩ := hp; simp only at hx hm; subst hm
+    refine Obl.bind (setupInputs_obl ht _) (fun q1 q2 hq => ?_)
+    exact Obl.pure ⟨.cons hx hq.1, hq.2⟩
 
-theorem runBlock_obl {i1 i2 : List (Nat × Int)} (hi : Forall2 (fun a b => a.1 = b.1) i1 i2) {in1 in2 : List Int}
-    (hin : in1.length = in2.length) (prog : BBlock) :
-    Obl BStRel (runBlock i1 in1 prog) (runBlock i2 in2 prog) := by
-  unfold runBlock
+theorem forall2_map_of_length {α β : Type} {R : β → β → Prop} {f : α → β} (hR : ∀ a b, R (f a) (f b)) :
+    ∀ {l1 l2 : List α}, l1.length = l2.length → Forall2 R (l1.map f) (l2.map f)
+  | [], [], _ => .nil
+  | [], _ :: _, h => by simp at h
+  | _ :: _, [], h => by simp at h
+  | a :: l1, b :: l2, h => .cons (hR a b) (forall2_map_of_length hR (by simpa using h))
+
+theorem runBlockT_obl {i1 i2 : List (Nat × IVal)} (hi : Forall2 (fun a b => a.1 = b.1 ∧ IRel a.2 b.2) i1 i2)
+    {in1 in2 : List Int} (hin : in1.length = in2.length) {f1 f2 : List (Int × Nat)} (hf : f1.length = f2.length)
+    (prog : BBlock) : Obl BStRel (runBlockT i1 in1 f1 prog) (runBlockT i2 in2 f2 prog) := by
+  unfold runBlockT
   refine Obl.bind (setupVars_obl hi ⟨.nil, rfl⟩) (fun b1 b2 hb => ?_)
   rw [hb.next]
-  refine Obl.bind (setupInputs_obl hin _) (fun o1 o2 ho => ?_)
-  refine execBlock_obl prog (e1 := { inputs := o1 }) (e2 := { inputs := o2 }) ⟨ho, rfl⟩ ?_
-  refine ⟨⟨hb.vals, ?_⟩, .nil⟩
-  show b2.next + o1.length = b2.next + o2.length
-  rw [ho.length_eq]
+  refine Obl.bind (setupInputs_obl (forall2_map_of_length (f := ILeaf.int) (fun _ _ => trivial) hin) _) (fun p1 p2 hp => ?_)
+  obtain ⟨o1, m1⟩ := p1; obtain ⟨o2, m2⟩ := p2; obtain ⟨ho, hm⟩ := hp; simp only at ho hm; subst hm
+  refine Obl.bind (setupInputs_obl (forall2_map_of_length (f := fun me : Int × Nat => ILeaf.fxp me.1 me.2)
+    (fun _ _ => trivial) hf) _) (fun q1 q2 hq => ?_)
+  obtain ⟨g1, k1⟩ := q1; obtain ⟨g2, k2⟩ := q2; obtain ⟨hg, hk⟩ := hq; simp only at hg hk; subst hk
+  exact execBlock_obl prog (e1 := { inputs := o1, finputs := g1 }) (e2 := { inputs := o2, finputs := g2 })
+    ⟨ho, hg, rfl⟩ ⟨⟨hb.vals, rfl⟩, .nil⟩
 
 end Pysnark
